@@ -28,7 +28,7 @@ Definition cause_equal_width (w : widths) (a b : ctype) : bool :=
 
 Definition small_same (a b : ctype) : bool := ctype_eqb a b && (crank a <? 3).
 
-(* 0 agree | 1 equal width | 2 promotion | 3 C comparison is int | 4 C conditional of one small type | 5 conditional of two types of one rank | 9 unexplained *)
+(* 0 agree | 1 equal width | 2 promotion | 3 C comparison is int | 4 C conditional of one small type | 9 unexplained   (class 5, conditional of two types of one rank, is empty since /repo 513f3e3) *)
 Definition explain (cpp : bool) (w : widths) (op : cop) (a b : ctype) : N :=
   if agrees cpp w op a b then 0
   else match op with
@@ -36,8 +36,7 @@ Definition explain (cpp : bool) (w : widths) (op : cop) (a b : ctype) : N :=
        | CShift => if cause_promotion w a then 2 else 9
        | CArith => if cause_promotion w a || cause_promotion w b then 2
                    else if cause_equal_width w a b then 1 else 9
-       | CCond => if (crank a =? crank b) && negb (ctype_eqb a b) then 5
-                  else if negb cpp && small_same a b then 4
+       | CCond => if negb cpp && small_same a b then 4
                   else if cause_promotion w a || cause_promotion w b then 2
                   else if cause_equal_width w a b then 1 else 9
        end.
